@@ -41,3 +41,163 @@ theorem steps_of_runN {M : Type} {mc : Machine M} {P : List PCmd} {n : Nat} {c c
     | stuck => simp [hs] at h
 
 end NQ.Asm
+
+namespace NQ.AsmText
+
+/-! ### one macro pass of the fixed code = token-wise replacement of the uses of that key -/
+
+/-- what one pass does to a token -/
+def render1 (key val : List Char) : Tok → List Char
+  | .text c => [c]
+  | .use name => if name = key then val else '$' :: name
+
+theorem reSubAux_drop (key val : List Char) (n : Nat) (s : List Char) :
+    reSubAux key val n s = reSubAux key val 0 (s.drop n) := by
+  induction s generalizing n with
+  | nil => cases n <;> simp [reSubAux]
+  | cons c rest ih =>
+    cases n with
+    | zero => simp
+    | succ k => simp only [reSubAux, List.drop_succ_cons]; exact ih k
+
+theorem tokenizeAux_drop (n : Nat) (s : List Char) : tokenizeAux n s = tokenizeAux 0 (s.drop n) := by
+  induction s generalizing n with
+  | nil => cases n <;> simp [tokenizeAux]
+  | cons c rest ih =>
+    cases n with
+    | zero => simp
+    | succ k => simp only [tokenizeAux, List.drop_succ_cons]; exact ih k
+
+theorem isIdent_dollar : isIdent '$' = false := by decide
+
+theorem matchAt_of_ne (key : List Char) (c : Char) (rest : List Char) (h : c ≠ '$') :
+    matchAt key (c :: rest) = false := by
+  simp [matchAt, h]
+
+theorem drop_takeWhile_length (p : Char → Bool) (l : List Char) :
+    l.drop (l.takeWhile p).length = l.dropWhile p := by
+  induction l with
+  | nil => rfl
+  | cons c cs ih =>
+    by_cases h : p c
+    · simp [List.takeWhile_cons, List.dropWhile_cons, h, ih]
+    · simp [List.takeWhile_cons, List.dropWhile_cons, h]
+
+theorem takeWhile_append_dropWhile' (p : Char → Bool) (l : List Char) :
+    l.takeWhile p ++ l.dropWhile p = l := by
+  induction l with
+  | nil => rfl
+  | cons c cs ih =>
+    by_cases h : p c
+    · simp [List.takeWhile_cons, List.dropWhile_cons, h, ih]
+    · simp [List.takeWhile_cons, List.dropWhile_cons, h]
+
+theorem takeWhile_all (p : Char → Bool) (l : List Char) : ∀ c ∈ l.takeWhile p, p c = true := by
+  induction l with
+  | nil => simp
+  | cons c cs ih =>
+    by_cases h : p c
+    · simp only [List.takeWhile_cons, h, if_true, List.mem_cons]
+      intro d hd; rcases hd with rfl | hd
+      · exact h
+      · exact ih d hd
+    · simp [List.takeWhile_cons, h]
+
+theorem dropWhile_head (p : Char → Bool) (l : List Char) :
+    match l.dropWhile p with
+    | [] => True
+    | d :: _ => p d = false := by
+  induction l with
+  | nil => simp
+  | cons c cs ih =>
+    by_cases h : p c
+    · simpa [List.dropWhile_cons, h] using ih
+    · simp [List.dropWhile_cons, h]
+
+theorem takeWhile_prefix (p : Char → Bool) (a b : List Char) (ha : ∀ c ∈ a, p c = true)
+    (hb : match b with | [] => True | d :: _ => p d = false) : (a ++ b).takeWhile p = a := by
+  induction a with
+  | nil =>
+    cases b with
+    | nil => rfl
+    | cons d ds => simp only [List.nil_append, List.takeWhile_cons]; simp at hb; simp [hb]
+  | cons c cs ih =>
+    have hc := ha c (by simp)
+    simp only [List.cons_append, List.takeWhile_cons, hc, if_true]
+    rw [ih (fun d hd => ha d (by simp [hd]))]
+
+/-- the regular expression matches at a `$` exactly when the macro use there is named `key` -/
+theorem matchAt_iff (key rest : List Char) (hk : ∀ c ∈ key, isIdent c = true) :
+    matchAt key ('$' :: rest) = true ↔ rest.takeWhile isIdent = key := by
+  constructor
+  · intro h
+    simp only [matchAt, beq_self_eq_true, Bool.true_and, Bool.and_eq_true] at h
+    obtain ⟨hp, hn⟩ := h
+    obtain ⟨t, rfl⟩ := List.isPrefixOf_iff_prefix.1 hp
+    apply takeWhile_prefix _ _ _ hk
+    simp only [List.drop_left] at hn
+    cases t with
+    | nil => trivial
+    | cons d ds => simpa using hn
+  · intro h
+    have hsplit := takeWhile_append_dropWhile' isIdent rest
+    rw [h] at hsplit
+    simp only [matchAt, beq_self_eq_true, Bool.true_and, Bool.and_eq_true]
+    refine ⟨List.isPrefixOf_iff_prefix.2 ⟨_, hsplit⟩, ?_⟩
+    have hd := dropWhile_head isIdent rest
+    rw [← hsplit, List.drop_left]
+    cases hdw : rest.dropWhile isIdent with
+    | nil => rfl
+    | cons d ds => rw [hdw] at hd; simp [hd]
+
+theorem reSub_ident_prefix (key val name tail : List Char) (hn : ∀ c ∈ name, isIdent c = true) :
+    reSubAux key val 0 (name ++ tail) = name ++ reSubAux key val 0 tail := by
+  induction name with
+  | nil => rfl
+  | cons c cs ih =>
+    have hc : c ≠ '$' := by
+      intro e; have := hn c (by simp); rw [e, isIdent_dollar] at this; cases this
+    simp only [List.cons_append, reSubAux, matchAt_of_ne key c _ hc, Bool.false_eq_true, if_false]
+    rw [ih (fun d hd => hn d (by simp [hd]))]
+
+/-- **one pass of the fixed `_apply_macros`** replaces exactly the macro uses named `key`
+(maximal-munch tokens `$name`) and nothing else -/
+theorem reSub_tokenwise (key val : List Char) (hk : ∀ c ∈ key, isIdent c = true) (s : List Char) :
+    reSub key val s = (tokenize s).flatMap (render1 key val) := by
+  unfold reSub tokenize
+  generalize hn : s.length = n
+  induction n using Nat.strongRecOn generalizing s with
+  | _ n ih =>
+    cases s with
+    | nil => rfl
+    | cons c rest =>
+      by_cases hc : c = '$'
+      · subst hc
+        have hsplit := takeWhile_append_dropWhile' isIdent rest
+        have hlen : (rest.dropWhile isIdent).length < n := by
+          have : (rest.takeWhile isIdent ++ rest.dropWhile isIdent).length = rest.length := by rw [hsplit]
+          simp only [List.length_append] at this
+          simp only [List.length_cons] at hn
+          omega
+        have ihT := ih _ hlen (rest.dropWhile isIdent) rfl
+        simp only [tokenizeAux, if_true, List.flatMap_cons, render1]
+        rw [tokenizeAux_drop, drop_takeWhile_length, ← ihT]
+        by_cases hname : rest.takeWhile isIdent = key
+        · have hm := (matchAt_iff key rest hk).2 hname
+          simp only [reSubAux, hm, if_true, hname]
+          rw [reSubAux_drop, ← hname, drop_takeWhile_length]
+        · have hm : matchAt key ('$' :: rest) = false := by
+            cases h : matchAt key ('$' :: rest) with
+            | false => rfl
+            | true => exact absurd ((matchAt_iff key rest hk).1 h) hname
+          simp only [reSubAux, hm, Bool.false_eq_true, if_false, hname]
+          conv => lhs; rw [← hsplit]
+          rw [reSub_ident_prefix key val _ _ (takeWhile_all isIdent rest)]
+          simp
+      · have hlen : rest.length < n := by simp only [List.length_cons] at hn; omega
+        have ihT := ih _ hlen rest rfl
+        simp only [reSubAux, matchAt_of_ne key c rest hc, Bool.false_eq_true, if_false, tokenizeAux, hc,
+          List.flatMap_cons, render1, ihT]
+        simp
+
+end NQ.AsmText
